@@ -1111,7 +1111,11 @@ func callBuiltin(caller *frame, callpos token.Pos, fn *ssa.Builtin, args []value
 			panic(fmt.Sprintf("imag: illegal operand: %T", c))
 		}
 
+	case "String", "StringData", "SliceData", "Slice", "Add":
+		panic(unsupported("unsafe.%s", fn.Name()))
+
 	case "complex":
+		args = []value{i.concValue(args[0]), i.concValue(args[1])}
 		switch f := args[0].(type) {
 		case float32:
 			return complex(f, args[1].(float32))
